@@ -261,6 +261,16 @@ def _work(task):
     return acc
 
 
+
+def _disturb_task(_):
+    from ..explore import disturb
+
+    acc = Acc()
+    acc.count("disturbance_rounds", 7)
+    for core, detail in disturb.differential('clones', disturb.clone_battery):
+        acc.violation(core, {"disturb": True}, detail)
+    return acc
+
 def run(tier, seed):
     K = 4 if tier == "quick" else 5
     tasks = []
@@ -280,6 +290,7 @@ def run(tier, seed):
     # every task in its own freshly forked process: class- or module-level state of the code under test then
     # depends only on the task, and a violation is replayed by re-running its task the same way
     acc = merge_all(par.pmap(_work, tasks, fresh=True))
+    acc.merge(par.run_fresh(_disturb_task, None))  # differential: a fixed battery before / after unrelated calls
     cov = {
         "evaluations": acc.n["trees"],
         "distinct_nontrivial": acc.n["nontrivial"],
@@ -294,6 +305,9 @@ def run(tier, seed):
 
 
 def replay(case):
+    if isinstance(case, dict) and case.get("disturb"):
+        from ..explore import disturb
+        return disturb.differential('clones', disturb.clone_battery)
     want = case.get("_core")
     try:
         got = par.run_fresh(_replay_direct, case)  # own process: must not pollute the next level
